@@ -5,7 +5,7 @@ import PPModel.Mod.Entry
   * `infixGrammar` : the node table that `infix_notation(base, op_list, lpar, rpar)` builds, **as it is after
     `streamline()`** (nested `And`s of the `a + b + c` operator chains are flattened, and the level-1
     `matchExpr | lastExpr` absorbs the `base | nested` MatchFirst; core.py ParseExpression.streamline).
-    The layout is fixed (header of 9 nodes, 14 nodes per level) so that level `k` lives at a computable
+    The layout is fixed (blocks of 14 nodes: block 0 = header, block k = level k) so that level `k` lives at a computable
     offset; unused slots are unreachable from the root and ignored by the structure comparison.
   * `_FB` (helpers.py:807-810) is *not* `FollowedBy`: its parseImpl is `self.expr.try_parse(instring, loc)`,
     i.e. `_parse(.., do_actions=False)` with a fatal exception turned into a ParseException at `loc`.
@@ -79,27 +79,31 @@ def litKind : List Char → Kind
   | [c] => .lit1 c
   | m => .lit m
 
-def hdrSize : Nat := 9
 def lvlSize : Nat := 14
 
-/-- node id of `thisExpr` of level `k` (1-based); level 0 is `lastExpr = base | nested` -/
-def E (k : Nat) : Nat := if k = 0 then 8 else hdrSize + lvlSize * (k - 1)
+/-- node id of `thisExpr` of level `k` (1-based); block 0 is the header and `E 0` is `lastExpr = base | nested` -/
+def E (k : Nat) : Nat := lvlSize * k
+
+/-- id of `ret`, the Forward that infix_notation returns -/
+def rootId : Nat := 1
 
 /-- id of the element that `nested_expr` contributes to `lastExpr` (helpers.py:823-827) -/
-def nestedId (t : Table) : Nat := if t.lsup && t.rsup then 6 else 7
+def nestedId (t : Table) : Nat := if t.lsup && t.rsup then 7 else 8
 
-/-- helpers.py:812-827 -/
+/-- helpers.py:812-827 (block 0; slots 9-13 unused) -/
 def header (t : Table) (top : Nat) : List Node :=
   let w := t.white
-  [ mkNode w (.forward (some top)) true true,                              -- 0  ret
-    t.base,                                                                -- 1  base_expr
-    mkNode w (litKind t.lpar) false true,                                  -- 2
-    mkNode w (.suppress 2) false true,                                     -- 3
-    mkNode w (litKind t.rpar) false true,                                  -- 4
-    mkNode w (.suppress 4) false true,                                     -- 5
-    mkNode w (.and [if t.lsup then 3 else 2, 0, if t.rsup then 5 else 4]) true true,   -- 6  nested_expr
-    mkNode w (.group 6) true true,                                         -- 7  Group(nested_expr)
-    mkNode w (.matchFirst [1, nestedId t]) true false ]                    -- 8  lastExpr
+  let dead := mkNode w .noMatch false true
+  [ mkNode w (.matchFirst [2, nestedId t]) true false,                     -- 0  lastExpr = base_expr | nested
+    mkNode w (.forward (some top)) true true,                              -- 1  ret
+    t.base,                                                                -- 2  base_expr
+    mkNode w (litKind t.lpar) false true,                                  -- 3
+    mkNode w (.suppress 3) false true,                                     -- 4
+    mkNode w (litKind t.rpar) false true,                                  -- 5
+    mkNode w (.suppress 5) false true,                                     -- 6
+    mkNode w (.and [if t.lsup then 4 else 3, 1, if t.rsup then 6 else 5]) true true,   -- 7  nested_expr
+    mkNode w (.group 7) true true,                                         -- 8  Group(nested_expr)
+    dead, dead, dead, dead, dead ]
 
 /-- one pass of the `for operDef in op_list` loop (helpers.py:836-906), `b` = first id of the block,
     `last` = id of lastExpr, `tail` = what `| lastExpr` contributes after streamlining -/
@@ -151,7 +155,7 @@ def levelNodes (w : List Char) (lv : Level) (b last : Nat) (tail : List Nat) : L
 def levelsFrom (t : Table) : Nat → List Level → List Node
   | _, [] => []
   | k, lv :: rest =>
-    levelNodes t.white lv (E k) (E (k - 1)) (if k = 1 then [1, nestedId t] else [E (k - 1)])
+    levelNodes t.white lv (E k) (E (k - 1)) (if k = 1 then [2, nestedId t] else [E (k - 1)])
       ++ levelsFrom t (k + 1) rest
 
 def infixGrammar (t : Table) : Grammar :=
